@@ -428,6 +428,111 @@ def rule_R18(text, deltas):
     raise AssembleError('R18 does not apply (no `for (P, Q) in E.enumerate() {`)')
 
 
+def rule_Rwrite(text, deltas, where):
+    """`write!(F, "FMT", A0, A1, ..)` / `writeln!(..)`  ->  `({ let verif_w0 = &(A0); let verif_w1 = &(A1); .. verif_write(F) })`
+    plus `verif_fmt_width(Ak);` for every argument the format string uses as a width (`k$`): the arguments are still
+    evaluated (their arithmetic is checked), a width is checked against what std accepts, the text written is dropped
+    (the sink `verif_write` is ASSUMED to return some fmt::Result).  Refused for named / inline arguments and `.*`."""
+    n = 0
+    while True:
+        toks = code_tokens(text)
+        T = lambda j: text[toks[j][1]:toks[j][2]]
+        hit = None
+        for j in range(len(toks) - 3):
+            if toks[j][0] == 'ident' and T(j) in ('write', 'writeln') and T(j + 1) == '!' and T(j + 2) == '(':
+                hit = j
+                break
+        if hit is None:
+            break
+        c = match_close(text, toks, hit + 2)
+        # split the arguments at top-level commas
+        args, depth, start = [], 0, toks[hit + 2][2]
+        for k in range(hit + 3, c):
+            t = T(k)
+            if t in ('(', '[', '{'):
+                depth += 1
+            elif t in (')', ']', '}'):
+                depth -= 1
+            elif t == ',' and depth == 0:
+                args.append(text[start:toks[k][1]].strip())
+                start = toks[k][2]
+        last = text[start:toks[c][1]].strip()
+        if last:
+            args.append(last)
+        if len(args) < 2 or not args[1].startswith('"'):
+            raise AssembleError('%s: Rwrite: `%s` has no literal format string' % (where, text[toks[hit][1]:toks[c][2]][:60]))
+        fmt = args[1]
+        if re.search(r'\{[A-Za-z_]', fmt) or '.*' in fmt or any(re.match(r'^\w+\s*=[^=]', a) for a in args[2:]):
+            raise AssembleError('%s: Rwrite: named / inline arguments or `.*` in %s' % (where, fmt[:40]))
+        widths = sorted(set(int(x) for spec in re.findall(r'\{[^{}]*\}', fmt) for x in re.findall(r'(\d+)\$', spec)))
+        if any(w >= len(args) - 2 for w in widths):
+            raise AssembleError('%s: Rwrite: width argument out of range in %s' % (where, fmt[:40]))
+        parts = ['let verif_w%d = &(%s);' % (i, a) for i, a in enumerate(args[2:])]
+        parts += ['verif_fmt_width(%s);' % args[2 + w] for w in widths]
+        new = '({ %s verif_write(%s) })' % (' '.join(parts), args[0])
+        deltas.append(dict(rule='Rwrite', original=text[toks[hit][1]:toks[c][2]], rewritten=new))
+        text = text[:toks[hit][1]] + new + text[toks[c][2]:]
+        n += 1
+    if n == 0:
+        raise AssembleError('Rwrite does not apply (no write!/writeln!)')
+    return text
+
+
+def rule_R19(text, deltas):
+    """`for P in E.take(N) { BODY }`  ->  `let mut verif_left: usize = N; for P in E { if verif_left == 0 { break; } verif_left -= 1; BODY }`
+    (Take yields at most N items; the rewritten loop asks the inner iterator for one more item than Take would, which for
+    the side-effect-free iterators of this code base cannot be observed; Verus has no spec for iterator adapters)"""
+    toks = code_tokens(text)
+    T = lambda j: text[toks[j][1]:toks[j][2]]
+    for j in range(len(toks) - 8):
+        if T(j) != 'for':
+            continue
+        # find `in` at depth 0, then `.take(N) {`
+        k = j + 1
+        depth = 0
+        while k < len(toks) and not (T(k) == 'in' and depth == 0):
+            if T(k) in ('(', '[', '{'): depth += 1
+            elif T(k) in (')', ']', '}'): depth -= 1
+            k += 1
+        if k >= len(toks):
+            continue
+        q = k + 1
+        depth = 0
+        found = None
+        while q + 3 < len(toks):
+            t = T(q)
+            if t in ('(', '['):
+                depth += 1
+            elif t in (')', ']'):
+                depth -= 1
+            elif t == '{' and depth == 0:
+                break
+            elif t == '.' and depth == 0 and T(q + 1) == 'take' and T(q + 2) == '(':
+                c = match_close(text, toks, q + 2)
+                if T(c + 1) == '{':
+                    found = (q, c)
+                    break
+            q += 1
+        if found is None:
+            continue
+        q, c = found
+        n_expr = text[toks[q + 2][2]:toks[c][1]].strip()
+        pat = text[toks[j + 1][1]:toks[k][1]].strip()
+        e_expr = text[toks[k][2]:toks[q][1]].strip()
+        new = 'let mut verif_left: usize = %s;\nfor %s in %s {\nif verif_left == 0 { break; }\nverif_left -= 1;' % (n_expr, pat, e_expr)
+        a, z = toks[j][1], toks[c + 1][2]
+        deltas.append(dict(rule='R19', original=text[a:z], rewritten=new))
+        return rule_R19_more(text[:a] + new + text[z:], deltas)
+    raise AssembleError('R19 does not apply (no `for P in E.take(N) {`)')
+
+
+def rule_R19_more(text, deltas):
+    try:
+        return rule_R19(text, deltas)
+    except AssembleError:
+        return text
+
+
 def rule_R16(text, deltas):
     """`X.extend(IT.map(|PAT| E));`  ->  `for verif_it in IT { let PAT = verif_it; X.push(E); }`
     (Vec::extend over a Map adapter is the push loop; Verus has no spec for iterator adapters)"""
@@ -957,13 +1062,16 @@ def lift_arm(src, loc, arm, armsig, where):
     text = src.text
     body = text[loc['body_open']:loc['end']]
     base = loc['body_open']
-    idx = body.find(arm + ' => {')
-    if idx < 0 or body.find(arm + ' => {', idx + 1) >= 0:
-        raise AssembleError('anchor lost: %s: match arm `%s => {` not found exactly once' % (where, arm))
+    # the pattern may be laid out over several lines: white space in `arm` matches any white space
+    rx = re.compile(r'\s+'.join(re.escape(w) for w in arm.split()) + r'\s*=>\s*\{')
+    ms = list(rx.finditer(body))
+    if len(ms) != 1:
+        raise AssembleError('anchor lost: %s: match arm `%s => {` found %d times' % (where, arm, len(ms)))
+    idx = ms[0].start()
     toks = code_tokens(body)
     ob = None
     for j in range(len(toks)):
-        if toks[j][1] >= idx + len(arm) and body[toks[j][1]:toks[j][2]] == '{':
+        if toks[j][1] == ms[0].end() - 1:
             ob = j
             break
     cb = match_close(body, toks, ob)
@@ -1035,6 +1143,10 @@ def expand_fn(fs, assumed_override=False, notes=None):
             body = rule_R3c(body, deltas)
         if 'R15' in fs.rules:
             body = rule_R15(body, deltas)
+        if 'Rwrite' in fs.rules:
+            body = rule_Rwrite(body, deltas, where)
+        if 'R19' in fs.rules:
+            body = rule_R19(body, deltas)
         if 'R18' in fs.rules:
             body = rule_R18(body, deltas)
         if 'R16' in fs.rules:
